@@ -5,6 +5,8 @@
 -/
 import FinVerif.Model.C17
 import FinVerif.Gen.BSF
+import FinVerif.Gen.KernF
+import FinVerif.Gen.CreditF
 
 namespace FinVerif.Model.C17F
 open FinVerif.Model.C17
@@ -98,5 +100,29 @@ def trancheSurvRecursionF (k1 k2 gcd : Float) (m : Nat) (thr betas ls : List Flo
 /-- `tranche_surv_prob_adj_binomial` after `avg_loss` and the loss ratios have been formed -/
 def trancheSurvABF (k1 k2 avgLoss : Float) (thr betas lrs : List Float) (steps : Nat) : Float :=
   trancheSurv k1 k2 avgLoss (lossDbnABF thr betas lrs steps) (thr.length + 1)
+
+/-- `norminvcdf` of the generated kernels as a plain function (NaN where the code raises) -/
+def ninvF (p : Float) : Float :=
+  match FinVerif.Gen.KernF.norminvcdf p with
+  | .ok v => v
+  | .error _ => 0.0 / 0.0
+
+/-- `exp_min_lk` (GENERATED text, `Gen/CreditF`) with the value of the bivariate normal `M` supplied by the caller -/
+def expMinLkF (k p r n beta mval : Float) : Float :=
+  FinVerif.Gen.CreditF.exp_min_lk ninvF (fun _ _ _ => mval) k p r n beta
+
+/-- `tr_surv_prob_lhp`: the guards and the two accumulation loops as coded, then the generated `exp_min_lk` twice
+(`m1`, `m2`: the values of `M` at the arguments formed for `k1`, `k2`) inside `trSurvLhpCore` -/
+def trSurvProbLhpF (k1 k2 : Float) (qs Rs : List Float) (beta m1 m2 : Float) : Float :=
+  if k1 == 0.0 && k2 == 0.0 then 0.0 else
+  let pds := qs.map fun q => 1.0 - q
+  let p0 := sumL pds
+  let el0 := sumL (List.zipWith (fun pd R => pd * (1.0 - R)) pds Rs)
+  if p0 == 0.0 then 1.0 else
+  let nf := Float.ofNat qs.length
+  let p := p0 / nf
+  let el := el0 / nf
+  let recovery := 1.0 - el / p
+  trSurvLhpCore (fun k => expMinLkF k p recovery 1.0 beta (if k == k1 then m1 else m2)) k1 k2
 
 end FinVerif.Model.C17F
